@@ -187,6 +187,7 @@ def run(prop, tier, seed, out):
             f_graph = ex.submit(export_graph, scr, 4 if quick else 5)
             f_graph_thr = ex.submit(export_graph, scr, 3 if quick else 4, "McThr", "export-thr", "McListsBig")
             f_graph_pre = ex.submit(export_graph, scr, 3 if quick else 4, "McNoThr", "export-pre", "McLists", ALLPRE)
+            f_graph_prethr = ex.submit(export_graph, scr, 2 if quick else 3, "McThr", "export-prethr", "McLists", ALLPRE)
             f_walks = ex.submit(export_walks, scr, 150 if quick else 2000, 24 if quick else 60, seed)
             f_val = ex.submit(export_validate, scr, 4 if quick else 5) if prop == "C05" else None
 
@@ -196,6 +197,8 @@ def run(prop, tier, seed, out):
             rep2 = replay(vh, scr, seed + 1, edges=graph2.out_path, tag="graph-thr")
             graph3 = must_pass(f_graph_pre.result(), "graph export (prelude)")
             rep4 = replay(vh, scr, seed + 3, edges=graph3.out_path, tag="graph-pre")
+            graph4 = must_pass(f_graph_prethr.result(), "graph export (prelude + thresholds)")
+            rep5 = replay(vh, scr, seed + 4, edges=graph4.out_path, tag="graph-prethr")
             walks = f_walks.result()
             if walks.error and "simulation" not in (walks.error or ""):
                 raise Broken("walk export: " + str(walks.error))
@@ -225,7 +228,7 @@ def run(prop, tier, seed, out):
                     raise Broken("deviation %s does not break any invariant: the invariants are vacuous for it" % dv)
             out.notes.append("vacuity: each of %s alone violates an invariant of Registry" % ", ".join(DEVIATIONS))
 
-        reports = [("graph", rep), ("graph-thr", rep2), ("graph-pre", rep4), ("walks", rep3)]
+        reports = [("graph", rep), ("graph-thr", rep2), ("graph-pre", rep4), ("graph-prethr", rep5), ("walks", rep3)]
         total_edges = sum(r["edges"] for _, r in reports)
         total_walks = sum(r["walks"] for _, r in reports)
         if total_edges < 100 or total_walks < 10:
